@@ -193,7 +193,7 @@ def plan(tier, seed):
     items += [{"kind": "chains", "exhaustive": "all redirect chain lengths 0..5 x redirect_limit {0..4, default} x final good/bad"},
              {"kind": "positions", "step": 1, "exhaustive": "every byte position of a standard, a redirect and a subprotocol head as eof and as timeout point"},
              {"kind": "variants", "exhaustive": "every Upgrade x Connection variant pair; every accept variant; every status"}]
-    n = 8000 if tier == "quick" else 150000
+    n = 8000 if tier == "quick" else 450000
     per = 250 if tier == "quick" else 2500
     for s in range(0, n, per):
         items.append({"kind": "rand", "start": s, "count": per, "allpos": tier == "thorough"})
